@@ -49,6 +49,11 @@ fn lexicase_replay() {
     let reverse = std::env::var("LEX_REVERSE").map(|s| s == "1").unwrap_or(false);
     let r: Vec<Vec<i64>> = spec.split(';').filter(|s| !s.is_empty()).map(|row| row.split(',').filter(|s| !s.is_empty()).map(|x| x.parse().unwrap()).collect()).collect();
     if r.is_empty() {
+        // an empty population: the documented EmptyPopulation error, no panic, whatever the number of cases
+        let cases: usize = std::env::var("LEX_CASES").ok().and_then(|s| s.parse().ok()).unwrap_or(0);
+        let pop: Vec<EcIndividual<usize, TestResults<Score<i64>>>> = Vec::new();
+        let mut rng = StdRng::seed_from_u64(0);
+        assert!(Lexicase::new(cases).select(&pop, &mut rng).is_err(), "lexicase on an empty population must report an error");
         return;
     }
     let m = r[0].len();
